@@ -151,7 +151,8 @@ def build_module(rng, gated: set, idx: int, n_decls: int):
     lines = ["from __future__ import annotations\n\nfrom typing import Generic, TypeVar\n\n"
              'TvPair = TypeVar("TvPair", bound=tuple[int, str], covariant=True)\nTvSet = TypeVar("TvSet", bound=set[int], contravariant=True)\n'
              'TvPlain = TypeVar("TvPlain")\nTvChoice = TypeVar("TvChoice", set[int], list[int])\nTvBound = TypeVar("TvBound", bound=int, covariant=True)\n'
-             "\n\ndef _untyped_source():\n    ...\n\n\nclass Base0:\n    pass\n\n\nclass Base1:\n    pass\n\n\nclass Base2:\n    pass\n\n\n"]
+             "\n\ndef _untyped_source():\n    ...\n\n\nclass Base0:\n    pass\n\n\nclass Base1:\n    pass\n\n\nclass Base2:\n    pass\n\n\n"
+             "class _Mix:\n    def mixed_in(self, a: int) -> int: ...\n\n    def mixed_untyped(self, b): ...\n\n\n"]
     gt = {}  # declaration path -> expected marker ids
     for j in range(n_decls):
         kind = rng.choice(["func", "func", "class", "class"])
@@ -167,6 +168,11 @@ def build_module(rng, gated: set, idx: int, n_decls: int):
             cmarks = set()
             if nb > 1:
                 cmarks.add("multiple-inheritance")
+            if rng.random() < 0.3:
+                # a private base at any place of the list: its members are shown in this class with their OWN markers
+                bases.insert(rng.randint(0, len(bases)), "_Mix")
+                gt[f"{cname}/mixed_in"] = set()
+                gt[f"{cname}/mixed_untyped"] = {"param-untyped", "result-missing"}
             # class-level type parameters: flagged types in a bound / in value constraints belong to the class header
             gen = rng.choice([None, None, None, ("TvPair", {"tuple"}), ("TvSet", {"set"}), ("TvPlain", set()), ("TvChoice", {"set"}), ("TvBound", set())])
             if gen is not None:
